@@ -1052,3 +1052,5 @@ func reachingStoreAddr(ld *ssa.UnOp, addr ssa.Value) ssa.Value {
 }
 
 func constantInt(k int64) constant.Value { return constant.MakeInt64(k) }
+
+func constantInt64(cn *types.Const) (int64, bool) { return constant.Int64Val(cn.Val()) }
